@@ -1,6 +1,7 @@
 package sym
 
 import (
+	"encoding/hex"
 	"fmt"
 	"go/types"
 	"net/textproto"
@@ -234,6 +235,18 @@ func registerNatives(e *Engine) {
 	// ---- library natives ----
 	n["bytes.Equal"] = func(ex *Exec, site ssa.Instruction, args []Value) Value {
 		return ex.bytesEqual(args[0].(Bytes), args[1].(Bytes))
+	}
+	n["encoding/hex.EncodeToString"] = func(ex *Exec, site ssa.Instruction, args []Value) Value {
+		b := args[0].(Bytes)
+		if b.BO == nil {
+			return ex.concStr("")
+		}
+		if s, ok := ex.bytesToStr(b).(*Str); ok && s.K == strConc {
+			return ex.concStr(hex.EncodeToString([]byte(s.C)))
+		}
+		nd := ex.newNode(nkHex, nil)
+		nd.src, nd.srcOff = b.BO.snapshot(), b.Off
+		return &Str{K: strSeq, Snap: nd, Off: ex.c64(0), Len: ex.tb().Add(b.Len, b.Len)}
 	}
 	n["strings.EqualFold"] = func(ex *Exec, site ssa.Instruction, args []Value) Value {
 		return ex.strEqualFold(args[0].(*Str), args[1].(*Str))
